@@ -208,10 +208,7 @@ def run(tier, seed, replay_file=None):
                 o.transitions += r.generated
                 uniq = {json.dumps(c, sort_keys=True): c for c in r.cases}
                 hists += [(target, c) for c in uniq.values()]
-    # RUN
-    jobs = [(i, t, hs) for i, (t, hs) in enumerate(hists)]
-    traces = pool_map(replay, jobs, chunksize=256)
-    # class-style definitions: every setattr-only history as a class body
+    # RUN + VAL, in chunks (the projected traces of 200k histories do not fit in memory at once)
     cd = []
     seen = set()
     for t, hs in hists:
@@ -219,45 +216,47 @@ def run(tier, seed, replay_file=None):
         if body and (t, body) not in seen and len(body) == len(hs) and all(k != 'nonhdl' for _, k in body):
             seen.add((t, body))
             cd.append((t, list(body)))
-    base = len(jobs)
-    cjobs = [(base + i, t, b) for i, (t, b) in enumerate(cd)]
-    traces += pool_map(replay_classdef, cjobs, chunksize=256)
-    # VAL
-    files = tlc.split_batches(traces, work, f"tr-{tier}", NPROC)
-    results = tlc.validate_batches("trace/Trace_Namespace.tla", "trace/Trace_Namespace.cfg", files, jobs=NPROC, tag="c18val")
-    verdicts = {}
-    for r in results:
-        o.transitions += r.generated
-        for tid, ok, clause in r.verdicts:
-            verdicts[tid] = (ok, clause)
-    if len(verdicts) != len(traces):
-        raise tlc.TlcError(f"C18: {len(traces)} traces but {len(verdicts)} verdicts")
-    o.traces = len(verdicts)
-    o.evaluations = sum(len(t) for t in traces)
-    nontriv = 0
-    for i, (t, hs) in enumerate(hists):
-        if any(x["op"] in ("setattr", "add") for x in hs):
-            nontriv += 1
-    o.distinct_nontrivial = nontriv + len(cd)
-    for tr in traces:
-        for ev in tr:
-            k = ev["op"] + ("_raised" if ev["raised"] else "")
-            o.cover[k] = o.cover.get(k, 0) + 1
-    o.required_cover = ["readd", "setattr", "add", "get", "del_raised", "subclass_raised", "elab", "export", "classdef", "setattr_raised", "add_raised"]
+    base = len(hists)
+    alljobs = [("h", i, t, hs) for i, (t, hs) in enumerate(hists)] + [("c", base + i, t, b) for i, (t, b) in enumerate(cd)]
     rnd = random.Random(seed)
-    for i in rnd.sample(range(len(traces)), min(3, len(traces))):
-        o.samples.append({"events": [{k: v for k, v in ev.items() if k in ("op", "name", "kind", "mode", "raised", "ns", "views")} for ev in traces[i]],
-                          "verdict": verdicts[traces[i][0]["tid"]]})
-    for i, tr in enumerate(traces):
-        ok, clause = verdicts[tr[0]["tid"]]
-        if not ok:
-            if i < len(hists):
-                t, hs = hists[i]
-                case = {"target": t, "hist": hs}
-                feats = features(t, hs)
-            else:
-                t, b = cd[i - len(hists)]
-                case = {"target": t, "classdef": b, "hist": [{"op": "setattr", "name": n, "kind": k, "mode": ""} for n, k in b]}
-                feats = features(t, case["hist"]) + ["classdef"]
-            o.violations.append(Violation(clause=clause, case=case, features=feats, detail=tr if len(o.violations) < 30 else None))
+    sample_ids = set(rnd.sample(range(len(alljobs)), min(3, len(alljobs))))
+    CH = 24000
+    ntraces = 0
+    for c0 in range(0, len(alljobs), CH):
+        chunk = alljobs[c0:c0 + CH]
+        traces = pool_map(replay, [(i, t, x) for k, i, t, x in chunk if k == "h"], chunksize=256)
+        traces += pool_map(replay_classdef, [(i, t, x) for k, i, t, x in chunk if k == "c"], chunksize=256)
+        files = tlc.split_batches(traces, work, f"tr-{tier}", NPROC)
+        results = tlc.validate_batches("trace/Trace_Namespace.tla", "trace/Trace_Namespace.cfg", files, jobs=NPROC, tag="c18val")
+        verdicts = {}
+        for r in results:
+            o.transitions += r.generated
+            for tid, ok, clause in r.verdicts:
+                verdicts[tid] = (ok, clause)
+        if len(verdicts) != len(traces):
+            raise tlc.TlcError(f"C18: {len(traces)} traces but {len(verdicts)} verdicts")
+        ntraces += len(traces)
+        o.evaluations += sum(len(t) for t in traces)
+        for tr in traces:
+            for ev in tr:
+                k = ev["op"] + ("_raised" if ev["raised"] else "")
+                o.cover[k] = o.cover.get(k, 0) + 1
+            i = tr[0]["tid"]
+            ok, clause = verdicts[i]
+            if i in sample_ids:
+                o.samples.append({"events": [{k: v for k, v in ev.items() if k in ("op", "name", "kind", "mode", "raised", "ns", "views")} for ev in tr], "verdict": [ok, clause]})
+            if not ok:
+                if i < base:
+                    t, hs = hists[i]
+                    case = {"target": t, "hist": hs}
+                    feats = features(t, hs)
+                else:
+                    t, b = cd[i - base]
+                    case = {"target": t, "classdef": b, "hist": [{"op": "setattr", "name": n, "kind": k, "mode": ""} for n, k in b]}
+                    feats = features(t, case["hist"]) + ["classdef"]
+                o.violations.append(Violation(clause=clause, case=case, features=feats, detail=tr if len(o.violations) < 30 else None))
+        del traces, results, verdicts
+    o.traces = ntraces
+    o.distinct_nontrivial = sum(1 for t, hs in hists if any(x["op"] in ("setattr", "add") for x in hs)) + len(cd)
+    o.required_cover = ["readd", "setattr", "add", "get", "del_raised", "subclass_raised", "elab", "export", "classdef", "setattr_raised", "add_raised"]
     return o
